@@ -5,10 +5,11 @@ import os, sys, random, math
 from fractions import Fraction
 import vlib
 
-LEAN_TARGETS = ['CvxVerif.Props.C18', 'CvxVerif.Props.C18Quick']
-MODEL_FILES = ['CvxVerif.Model.MatCheck', 'CvxVerif.Gen.LapackWrap']
+LEAN_TARGETS = ['CvxVerif.Props.C18', 'CvxVerif.Props.C18Quick', 'CvxVerif.Props.C18Info']
+MODEL_FILES = ['CvxVerif.Model.MatCheck', 'CvxVerif.Gen.LapackWrap', 'CvxVerif.Gen.CallArgs']
 LEVEL = 'proof'
-TRUSTED = ['translator tools/translate/cwrap2lean.py (argument checks and early returns of the lapack.c wrappers -> Gen/LapackWrap.lean; used by the quick-return theorems of the Q generators)',
+TRUSTED = ['translator tools/translate/ccall2lean.py (regular-expression scan of lapack.c: guards of err_lapack, calls receiving &info, the macro body -> Gen/CallArgs.lean)',
+           'translator tools/translate/cwrap2lean.py (argument checks and early returns of the lapack.c wrappers -> Gen/LapackWrap.lean; used by the quick-return theorems of the Q generators)',
            'the numerical routines are the external LAPACK (OpenBLAS build): nothing about their code is proved',
            'exact matrix checker lean/CvxVerif/Model/MatCheck.lean (products, transposes, Frobenius norms over the rationals); complex matrices are sent in their '
            'real 2n x 2n embedding', 'the harness: construction of well-conditioned / exactly singular inputs, band-storage conversions, tolerance 1e-9 relative to the norms of the factors']
@@ -20,10 +21,14 @@ TOL = Fraction(1, 10**9)
 
 def translate(ctx):
     sys.path.insert(0, os.path.join(vlib.VERIF, 'tools', 'translate'))
+    probs = []
     try:
         import cwrap2lean; cwrap2lean.gen_lapack()
-    except Exception as e: return ['cwrap2lean.gen_lapack: %s: %s' % (type(e).__name__, e)]
-    return []
+    except Exception as e: probs.append('cwrap2lean.gen_lapack: %s: %s' % (type(e).__name__, e))
+    try:
+        import ccall2lean; ccall2lean.gen_callargs()
+    except Exception as e: probs.append('ccall2lean.gen_callargs: %s: %s' % (type(e).__name__, e))
+    return probs
 
 def frs(x):
     f = Fraction(x); return str(f.numerator) if f.denominator == 1 else '%d/%d' % (f.numerator, f.denominator)
